@@ -159,8 +159,9 @@ End LtsFacts.
 (** * The client model *)
 
 Ltac split_step H :=
-  unfold step in H; rewrite !in_app_iff in H; destruct H as [H|[H|H]];
-  [unfold sstep, end_attempt, do_cancel in H | unfold cstep, do_cancel in H | unfold xstep in H].
+  unfold step in H; rewrite !in_app_iff in H; destruct H as [H|[H|[H|H]]];
+  [unfold sstep, end_attempt, do_cancel, pwake in H | unfold cstep, do_cancel, pwake in H | unfold xstep in H
+  | unfold pstep in H].
 
 Ltac crunch H :=
   repeat (cbn in H;
@@ -179,6 +180,8 @@ Ltac splitifs :=
           | |- context[if ?c then _ else _] => destruct c eqn:?
           | H : context[match ?c with SDNil => _ | _ => _ end] |- _ => destruct c eqn:?
           | |- context[match ?c with SDNil => _ | _ => _ end] => destruct c eqn:?
+          | H : context[match ?c with PIdle => _ | _ => _ end] |- _ => destruct c eqn:?
+          | |- context[match ?c with PIdle => _ | _ => _ end] => destruct c eqn:?
           end; cbn in *).
 
 Ltac fin :=
@@ -347,7 +350,10 @@ Definition mu_c (s : st) : nat :=
 Definition mu_x (s : st) : nat :=
   match x_pc s with XFin => 0 | XCalled => 1 | XIdle => 2 end.
 
-Definition mu (sc : script) (s : st) : nat := mu_s sc s + mu_c s + mu_x s.
+Definition mu_p (s : st) : nat :=
+  match p_pc s with PIdle => 0 | PRet _ => 1 | PClose _ => 2 | PRound _ _ => 3 | PImpl _ => 4 end.
+
+Definition mu (sc : script) (s : st) : nat := mu_s sc s + mu_c s + mu_x s + mu_p s.
 
 (** The close has taken effect: [p.closed] is set, and the context is
     cancelled unless Subscribe has not got to [initDone] yet (which will then
@@ -365,13 +371,13 @@ Definition slp (s : st) : nat := match s_pc s with SSleep => 1 | _ => 0 end.
     steps that are not bounded: the statements below are about what happens
     between them. *)
 Definition is_call (l : option ev) : bool :=
-  match l with Some ESubCall | Some ECloseCall => true | _ => false end.
+  match l with Some ESubCall | Some ECloseCall | Some (EPollCall _) => true | _ => false end.
 
 Lemma closing_step sc s l s1 :
   closing s -> In (l, s1) (step true sc s) -> is_call l = false ->
   closing s1 /\ mu sc s1 < mu sc s /\ nsleep s1 + slp s1 <= nsleep s + slp s.
 Proof.
-  intros [C1 C2] H Hn. unfold closing, mu, mu_s, mu_c, mu_x, slp, cancelled in *.
+  intros [C1 C2] H Hn. unfold closing, mu, mu_s, mu_c, mu_x, mu_p, slp, cancelled in *.
   destruct s; cbn in *.
   split_step H; crunch H; cbn in *; subst; try discriminate.
   all: try (match goal with
@@ -472,7 +478,7 @@ Definition inv8 (s : st) : Prop :=
 Lemma inv8_step sc s l s1 : inv3 s -> inv8 s -> In (l, s1) (step true sc s) -> inv8 s1.
 Proof.
   intros I3 I H.
-  destruct s as [spc0 att0 conn0 curcl0 err0 cpc0 cw0 cok0 xpc0 rcl0 hc0 sd0 cr0 cp0 nc0 ns0 bc0 bi0 bm0 cd0];
+  destruct s as [spc0 att0 conn0 curcl0 err0 cpc0 cw0 cok0 xpc0 rcl0 hc0 sd0 cr0 cp0 nc0 ns0 bc0 bi0 bm0 cd0 pp0 pw0];
   unfold inv3, inv8, cancelled in *; cbn in *;
   split_step H; crunch H; cbn in *; splitifs; rewrite ?Nat.eqb_refl in *;
   rewrite ?andb_false_r in *; try discriminate;
@@ -505,7 +511,7 @@ Lemma resub_ok_step sc s l s1 :
   resub_ok s -> In (l, s1) (step true sc s) -> is_call l = false -> resub_ok s1.
 Proof.
   intros [R1 R2] H Hn.
-  destruct s as [spc0 att0 conn0 curcl0 err0 cpc0 cw0 cok0 xpc0 rcl0 hc0 sd0 cr0 cp0 nc0 ns0 bc0 bi0 bm0 cd0];
+  destruct s as [spc0 att0 conn0 curcl0 err0 cpc0 cw0 cok0 xpc0 rcl0 hc0 sd0 cr0 cp0 nc0 ns0 bc0 bi0 bm0 cd0 pp0 pw0];
   unfold resub_ok in *; cbn in *;
   split_step H; crunch H; cbn in *; try discriminate; splitifs;
   try (split; [try assumption; try discriminate|]; auto; fail);
@@ -525,7 +531,7 @@ Lemma closing_progress sc s :
   (s_pc s = SFin \/ s_pc s = SIdle) /\ c_pc s = CFin.
 Proof.
   intros [_ [I1 _]] I I8 [C1 C2] Q H. apply nc_app_nil in H. destruct H as [Hs Hc].
-  destruct s as [spc0 att0 conn0 curcl0 err0 cpc0 cw0 cok0 xpc0 rcl0 hc0 sd0 cr0 cp0 nc0 ns0 bc0 bi0 bm0 cd0];
+  destruct s as [spc0 att0 conn0 curcl0 err0 cpc0 cw0 cok0 xpc0 rcl0 hc0 sd0 cr0 cp0 nc0 ns0 bc0 bi0 bm0 cd0 pp0 pw0];
   unfold inv2, inv8, resub_ok, sstep, cstep, end_attempt, do_cancel, cancelled in *; cbn in *; subst.
   specialize (I1 eq_refl).
   destruct spc0; cbn in Hs; try discriminate; stuck_cases Hs;
@@ -614,7 +620,7 @@ Definition inv4 (s : st) : Prop :=
 Lemma inv4_step sc s l s1 : inv4 s -> In (l, s1) (step true sc s) -> inv4 s1.
 Proof.
   intros I H.
-  destruct s as [spc0 att0 conn0 curcl0 err0 cpc0 cw0 cok0 xpc0 rcl0 hc0 sd0 cr0 cp0 nc0 ns0 bc0 bi0 bm0 cd0];
+  destruct s as [spc0 att0 conn0 curcl0 err0 cpc0 cw0 cok0 xpc0 rcl0 hc0 sd0 cr0 cp0 nc0 ns0 bc0 bi0 bm0 cd0 pp0 pw0];
   unfold inv4 in *; cbn in *;
   split_step H; crunch H; cbn in *; splitifs;
   try destruct rcl0; try destruct hc0; try destruct cr0; cbn in *;
